@@ -418,6 +418,9 @@ class DatasetProcessor:
         self.io_support = IOSupport(self.args)
         self.all_read_groups = set()
         self.alignment_stat_counter = EnumStats()
+        # model construction strategy defaults; process_sample derives per-experiment values from these
+        self.strategy_require_monointronic_polya = getattr(args, "require_monointronic_polya", False)
+        self.strategy_require_monoexonic_polya = getattr(args, "require_monoexonic_polya", False)
 
         if args.genedb:
             logger.info("Loading gene database from " + self.args.genedb)
@@ -509,11 +512,11 @@ class DatasetProcessor:
             self.args.polya_requirement_strategy)
         self.args.require_monointronic_polya = set_polya_requirement_strategy(
             # do not require polyA tails for mono-intronic only if the data is reliable and polyA percentage is low
-            self.args.require_monointronic_polya or self.args.requires_polya_for_construction,
+            self.strategy_require_monointronic_polya or self.args.requires_polya_for_construction,
             self.args.polya_requirement_strategy)
         self.args.require_monoexonic_polya = set_polya_requirement_strategy(
             # do not require polyA tails for mono-intronic only if the data is reliable and polyA percentage is low
-            self.args.require_monoexonic_polya or self.args.requires_polya_for_construction,
+            self.strategy_require_monoexonic_polya or self.args.requires_polya_for_construction,
             self.args.polya_requirement_strategy)
 
         self.process_assigned_reads(sample, saves_file)
